@@ -134,6 +134,11 @@ def purity(an: Analysis, rep, rule: str, entries, versions=((3, 10),)):
             it, _ = an.interp(entry, V)
             for f in an.closure(entry, V):
                 n_fn += 1
+                for sub in ast.walk(f.node):
+                    if isinstance(sub, ast.Global):
+                        rep.add(rule, f"{f.qual}::global {','.join(sub.names)}", False, loc(f.module, sub),
+                                f"`global {', '.join(sub.names)}` in a function the API reaches: module state is written, so what a call does depends on the calls before it "
+                                f"(a counter that is not reset when a call raises refuses every later input)", config=entry)
                 memo = [d for d in f.decorators if d in MEMO_DECORATORS]
                 if memo:
                     rep.add(rule, f"{f.qual}::decorators", False, loc(f.module, f.node),
